@@ -1717,15 +1717,8 @@ func (r *Regex) MatchReader(reader io.RuneReader) bool {
 // A return value of nil indicates no match.
 func (r *Regex) FindReaderIndex(reader io.RuneReader) []int {
 	// Read all runes into a string and find
-	var runes []rune
-	for {
-		rn, _, err := reader.ReadRune()
-		if err != nil {
-			break
-		}
-		runes = append(runes, rn)
-	}
-	return r.FindStringIndex(string(runes))
+	text, offsets := readAllRunes(reader)
+	return offsets.toStream(r.FindStringIndex(text))
 }
 
 // FindReaderSubmatchIndex returns a slice holding the index pairs
@@ -1736,15 +1729,74 @@ func (r *Regex) FindReaderIndex(reader io.RuneReader) []int {
 // A return value of nil indicates no match.
 func (r *Regex) FindReaderSubmatchIndex(reader io.RuneReader) []int {
 	// Read all runes into a string and find
+	text, offsets := readAllRunes(reader)
+	return offsets.toStream(r.FindStringSubmatchIndex(text))
+}
+
+// readerOffsets maps byte offsets in the re-encoded text back to byte offsets in the
+// input stream. The two differ when ReadRune reports a rune whose width in the stream
+// is not the length of its UTF-8 encoding: an invalid byte is delivered as
+// (utf8.RuneError, 1) but re-encodes to three bytes.
+type readerOffsets struct {
+	text   []int // offset in the re-encoded text at which rune i starts
+	stream []int // offset in the input stream at which rune i starts
+}
+
+// readAllRunes drains the reader and returns the text it delivered, re-encoded as
+// UTF-8, together with the offset map. The map is nil when both offsets coincide.
+func readAllRunes(reader io.RuneReader) (string, *readerOffsets) {
 	var runes []rune
+	var m readerOffsets
+	textPos, streamPos := 0, 0
+	differ := false
 	for {
-		rn, _, err := reader.ReadRune()
+		rn, w, err := reader.ReadRune()
 		if err != nil {
 			break
 		}
 		runes = append(runes, rn)
+		m.text = append(m.text, textPos)
+		m.stream = append(m.stream, streamPos)
+		n := utf8.RuneLen(rn)
+		if n < 0 {
+			n = 3 // string(rune) encodes an invalid rune as U+FFFD
+		}
+		if n != w {
+			differ = true
+		}
+		textPos += n
+		streamPos += w
 	}
-	return r.FindStringSubmatchIndex(string(runes))
+	if !differ {
+		return string(runes), nil
+	}
+	m.text = append(m.text, textPos)
+	m.stream = append(m.stream, streamPos)
+	return string(runes), &m
+}
+
+// toStream converts match offsets found in the re-encoded text to stream offsets.
+func (m *readerOffsets) toStream(loc []int) []int {
+	if m == nil || loc == nil {
+		return loc
+	}
+	for i, pos := range loc {
+		if pos < 0 {
+			continue
+		}
+		// largest k with m.text[k] <= pos
+		lo, hi := 0, len(m.text)-1
+		for lo < hi {
+			mid := (lo + hi + 1) / 2
+			if m.text[mid] <= pos {
+				lo = mid
+			} else {
+				hi = mid - 1
+			}
+		}
+		loc[i] = m.stream[lo] + (pos - m.text[lo])
+	}
+	return loc
 }
 
 // MatchReader reports whether the text returned by the RuneReader
